@@ -3,6 +3,8 @@ macro_rules! registry {
     ($action:ident, $id:expr, $ctx:expr, $path:expr) => {
         match $id {
             "C01" => dispatch!($action, props::c01::C01, $ctx, $path),
+            "C15" => dispatch!($action, props::c15::C15, $ctx, $path),
+            "C41" => dispatch!($action, props::c41::C41, $ctx, $path),
             _ => {
                 eprintln!("unknown property {}", $id);
                 2
